@@ -15,7 +15,7 @@ OVERLAY = {
 }
 DELAYS = [0, 0, 1500, 4000]          # microseconds added to every StoreLogs of the raft log store after a (re)start
 FAULTS = ["kill", "kill-after-ack", "kill-during-post", "lost-answer", "snapshot", "pause",
-          "round-kill", "round-pause", "round-snapshot", "restart-immediate-retry"]
+          "round-kill", "round-pause", "round-snapshot", "restart-immediate-retry", "cut-inside-batch"]
 
 
 def gen_scenario(rng, ident):
@@ -46,6 +46,7 @@ def gen_scenario(rng, ident):
         elif kind == "lost-answer": tok = "LA:%d" % k
         elif kind == "snapshot": tok = "S"
         elif kind == "pause": tok = "Z:%d" % rng.randint(20, 300)
+        elif kind == "cut-inside-batch": tok = "CB:%d:%d:%d:%d:0" % (k, rng.randrange(5), rng.choice([1, 2]), rng.choice([0, 0, 1, 2]))
         elif kind == "restart-immediate-retry": tok = "RI:%d:%d:0" % (k, rng.choice([1, 2]))
         elif kind == "round-kill": tok = "R:%d:kill:%d:%d" % (rng.randint(2, 5), rng.randint(0, 6000), d)
         elif kind == "round-pause": tok = "R:%d:pause:%d:%d" % (rng.randint(2, 5), rng.randint(0, 3000), rng.randint(20, 300))
@@ -55,8 +56,40 @@ def gen_scenario(rng, ident):
             chunks.insert(pos, "G"); pos += 1
         chunks.insert(pos, tok)
         kinds.append(kind)
-    head = ["N:%d" % rng.choice(DELAYS), "F"] + ["C:%d" % k for k in range(nc)]
+    head = ["N:%d" % rng.choice(DELAYS), "F"] + ["C:%d" % k for k in range(nc)] + ["X"]
     return "sys %s " % ident + " ".join(head + chunks), kinds
+
+
+def cut_grid(reps, quick):
+    """a live reader is cut off client-side INSIDE a multi-message batch addressed to it (WHOIS / NAMES / WHO / LIST / JOIN of a
+    channel with members and a topic) after k messages and reconnects with lastseen=X.k: to the caught-up node (mode 0, control),
+    or — after SIGKILL and a restart without the Barrier (modes 1, 2) — to a node that is still replaying a log of the D14 grid sizes"""
+    lines = []
+    for rep in range(reps):
+        for mode in (0, 1, 2):
+            for snap in (True, False):
+                for fill in ((10,) if mode == 0 else (0, 50, 150, 300)):
+                    for cmd in range(5):
+                        for cut in (1, 2):
+                            for apply_delay in (0, 200):
+                                if apply_delay and (mode == 0 or fill > 50 or not snap):
+                                    continue
+                                if mode == 0 and not snap:
+                                    continue
+                                if quick and not ((mode == 0 and cut == 1 + cmd % 2)
+                                                  or (mode > 0 and snap and not apply_delay and (fill, cmd, cut) in ((150, 0, 2), (300, 4, 1), (50, 2, 2), (150, 3, 1)))
+                                                  or (mode == 1 and not snap and (fill, cmd, cut) == (50, 0, 1))
+                                                  or (mode == 1 and apply_delay and (fill, cmd, cut) == (50, 0, 2))):
+                                    continue
+                                k = 1 + (rep + cmd) % 2
+                                ident = "cut-%s-f%d-m%d-c%d-k%d-a%d-r%d" % ("snap" if snap else "nosnap", fill, mode, cmd, cut, apply_delay, rep)
+                                steps = ["N:0", "F", "C:0", "C:1", "C:2", "X", "M:0:2", "M:1:2"] + (["S"] if snap else [])
+                                if fill:
+                                    steps.append("R:%d:none:0:0" % fill)
+                                steps += ["CB:%d:%d:%d:%d:%d" % (k, cmd, cut, mode, apply_delay), "M:%d:2" % ((k + 1) % 3), "R:2:none:0:0"]
+                                lines.append("sys %s " % ident + " ".join(steps))
+    lines.sort(key=lambda l: "-a0-" not in l)
+    return lines
 
 
 def kill_strays(pidfile):
@@ -204,6 +237,29 @@ def monitor(r):
             elif not rd["live_finished"]:
                 bad.append(("live-reader-stalled", "client %d: the live reader received every PRIVMSG but never the PONG to its final PING (%s)"
                             % (rd["k"], rd.get("live_errors", [])[:3])))
+            # the same on EVERYTHING the session was sent (numerics, JOINs, PONGs ...), by message id: up to the PONG of its final PING the
+            # live reader must have received exactly the messages of the whole stream, each once, in that order
+            li, fi = rd.get("live_ids") or [], rd.get("full_ids") or []
+            L = list(zip(li[0::2], li[1::2]))
+            F = list(zip(fi[0::2], fi[1::2]))
+            checks += 1
+            if L != F[:len(L)]:
+                ls = set(L)
+                upto = max(L) if L else (0, 0)
+                missed = [x for x in F if x <= upto and x not in ls]
+                fs = set(F)
+                extra = [x for x in L if x not in fs] + [x for x in ls if L.count(x) > 1]
+                cuts = ["cut after %s messages of batch %s (%s), reconnected with lastseen=%s, mode %s" %
+                        (q["messages_read_before_cut"], q["batch_id"], q["cmd"], q["reconnected_with_lastseen"], q["mode"]) for q in rd.get("cuts", []) if q["outcome"] == "cut"]
+                detail = "client %d: live reader ids %s...; whole stream %s...; driver's reading: %s; %s" % (
+                    rd["k"], ["%d.%d" % x for x in L[-6:]], ["%d.%d" % x for x in F[max(0, len(L) - 6):len(L) + 3]], rd.get("live_vs_full", [])[:6], "; ".join(cuts))
+                if missed:
+                    bad.append(("live-reader-missed-message", "the live reader never received %d message(s) of its stream, ids (minus offset) %s — %s"
+                                % (len(missed), ["%d.%d" % x for x in missed[:8]], detail)))
+                elif extra:
+                    bad.append(("live-reader-duplicate", "the live reader received %s twice or although the stream does not hold them — %s" % (["%d.%d" % x for x in extra[:8]], detail)))
+                else:
+                    bad.append(("live-reader-order", "same ids, other order — " + detail))
             if rd["live_ids_not_increasing"]:
                 bad.append(("live-reader-ids-not-increasing", "client %d: %d messages arrived at the live reader with a non-increasing id" % (rd["k"], rd["live_ids_not_increasing"])))
         if rd["ids_not_increasing"]:
@@ -297,6 +353,7 @@ def run(ck, replay):
                 if fn.endswith(".case"):
                     lines += [l.strip() for l in open(os.path.join(corpus, fn)).read().split("\n") if l.strip() and not l.startswith("#")]
         lines += ri_grid(1 if quick else 5, quick)
+        lines += cut_grid(1 if quick else 2, quick)
         n = 160 if quick else 2400
         for i in range(n):
             line, kinds = gen_scenario(ck.rng, "g%d" % i)
@@ -316,7 +373,7 @@ def run(ck, replay):
         return
 
     dist = {"scenarios": len(lines), "clients": 0, "posts": 0, "acked_posts": 0, "retried_posts": 0, "answers_dropped": 0, "node_starts": 0,
-            "snapshots_on_disk": 0, "incremental_fetches": 0, "retry_refused_while_replaying": 0, "live_readers": 0, "live_reader_connects": 0, "live_reader_messages": 0, "faults_generated": kinds_gen, "steps_executed": {}, "failed_attempts": {}}
+            "snapshots_on_disk": 0, "incremental_fetches": 0, "retry_refused_while_replaying": 0, "live_readers": 0, "live_reader_connects": 0, "live_reader_messages": 0, "live_reader_messages_all_kinds": 0, "cuts_inside_batch": {}, "faults_generated": kinds_gen, "steps_executed": {}, "failed_attempts": {}}
     nontriv, checks_total, seen_sig, harness_all = set(), 0, set(), []
     samples = []
     for line, r in zip(lines, res):
@@ -342,9 +399,16 @@ def run(ck, replay):
         dist["node_starts"] += r["starts"]
         dist["snapshots_on_disk"] += r["snapshots_on_disk"]
         for e in r["events"]:
+            if e.startswith("CB:"):
+                continue
             if e.startswith("RI:"):
                 e = ":".join(e.split(":")[:3])       # RI:mode=<m>:<acked|refused|failed>
             dist["steps_executed"][e] = dist["steps_executed"].get(e, 0) + 1
+        for c in r["clients"]:
+            for q in c.get("cuts") or []:
+                key = "mode=%d:%s" % (q["mode"], q["outcome"])
+                dist["cuts_inside_batch"][key] = dist["cuts_inside_batch"].get(key, 0) + 1
+            dist["live_reader_messages_all_kinds"] += len(c.get("live_ids") or []) // 2
         dist["retry_refused_while_replaying"] += sum(1 for c in r["clients"] if c.get("refused_while_replaying"))
         if retried and r["starts"] > 1 and not harness:
             nontriv.add(line.split(" ", 2)[2])
@@ -376,7 +440,9 @@ def run(ck, replay):
                       "restart on the same directories with 0-4 ms delay in front of the raft log store; plus a grid of D14 shapes (sessions inside/outside a snapshot, "
                       "0-900 entries behind it, announced at leadership or when the listener is up, optional 200 us delay in front of FSM.Apply). Every client keeps a LIVE "
                       "long-poll reader open from its JOIN on (reconnecting with the last id it saw after restarts and superseded streams, paused only during its own G "
-                      "fetches); what it received is compared with the whole stream fetched from 0.0 at the end. non-trivial = scenario (distinct by text) in which the node "
+                      "fetches); what it received (all message ids, and the PRIVMSG texts) is compared with the whole stream fetched from 0.0 at the end. CB = a live reader is cut off "
+                      "client-side after k messages of a multi-message batch addressed to it (WHOIS/NAMES/WHO/LIST/JOIN with topic) and reconnects with lastseen=X.k to the "
+                      "caught-up node (control) or, after SIGKILL + restart without the Barrier, to the node while it replays its log (grid of the D14 sizes). non-trivial = scenario (distinct by text) in which the node "
                       "was restarted at least once AND at least one POST had to be repeated (measured on the run)")
     ck.cov["input_distribution"] = dist
     ck.cov["samples"] = samples
